@@ -35,7 +35,7 @@ func (r *AztecReader) Decode(image *gozxing.BinaryBitmap, hints map[gozxing.Deco
 	var formatException error
 	bmp, err := image.GetBlackMatrix()
 	if err != nil {
-		return nil, gozxing.WrapReaderException(err)
+		return nil, gozxing.WrapNotFoundException(err)
 	}
 	detector := detector.NewDetector(bmp)
 	var points []gozxing.ResultPoint
